@@ -2,6 +2,30 @@
 import re
 
 PROPS = {
+    "C19": {
+        "modules": ["Ark.Props.C19"],
+        "claimed": False,
+        "rule": "one op line per comparison of a PAIR (or triple) of values / representations; distinct = distinct op line; non-trivial = operands not all in {0,1}",
+        "exhaustive": ["all pairs of F_3, F_5, F_7, F_13 in both flavours; all pairs of points x rescalings Z in {1,2,3} x identity forms of toy curves SW13A, SW13D, TE13A"],
+        "partial": [],
+        "assumptions": ["Hash is observed through a recording Hasher (byte streams of write* calls)", "SW Affine values with infinity=true and non-zero placeholder coordinates are constructible only through doc(hidden) public fields and are outside the quantifier (ops *.raw, verdict note)"],
+    },
+    "C07": {
+        "modules": ["Ark.Props.C07"],
+        "claimed": False,
+        "rule": "one op line per domain construction / element / transform / vanishing / Lagrange evaluation; distinct = distinct op line; non-trivial = size > 1 or non-trivial operands",
+        "exhaustive": ["every coefficient vector over F_3, F_5, F_7 for the small domains; every input length 0..=size for sizes <= 32"],
+        "partial": [],
+        "assumptions": ["only serial code paths (parallel is C14)", "filter polynomials are outside the property statement (verdict note)"],
+    },
+    "C02": {
+        "modules": ["Ark.Props.C02"],
+        "claimed": False,
+        "rule": "one op line per extension-field operation on a tower configuration (shipped bls12_381 Fq2/Fq6/Fq12, mnt6_753 Fq3, toy Fp2/Fp3/Fp4/Fp6/Fp12 towers); distinct = distinct op line; non-trivial = some coordinate outside {0,1}",
+        "exhaustive": ["all ordered pairs of toy Fp2 over F_3, F_5, F_7 (beta=-1 and beta=3); all elements of toy Fp3 over F_7, F_13 and Fp4 over F_5; complete cyclotomic subgroups of the toy towers"],
+        "partial": [],
+        "assumptions": ["tower constants of the 27 curve crates are checked by C16, not exercised here"],
+    },
     "C20": {
         "modules": ["Ark.Props.C20"],
         "claimed": False,
@@ -11,16 +35,14 @@ PROPS = {
         "assumptions": ["radix digit parsing is num-bigint's (modelled as positional notation)", "literals the macro rejects at compile time cannot be in the grid (documented in the model, exercised by a scratch crate once)"],
     },
     "C03": {
-        "modules": ["Ark.Props.C03"],
-        "claimed": False,
+        "modules": ["Ark.Props.C03a", "Ark.Props.C03b"],
         "rule": "one op line per point operation on a pair of representatives; distinct = distinct op line; non-trivial = not all coordinates in {0,1}",
         "exhaustive": ["all ordered pairs of representatives (several projective rescalings, all identity forms) on six SW curves over F_13, one over F_49, and TE curves over F_13 / F_127 (quick); more in thorough"],
-        "partial": [],
-        "assumptions": ["characteristic != 2 (and the curve equation for the branches that need it) are hypotheses of the theorems"],
+        "partial": ["twisted Edwards, incomplete addition law (d or a*d a square): that the prime-order subgroup avoids the exceptional pairs is not proved (needs associativity of the Edwards law); proved instead: exact algebraic characterisation of exceptional pairs (te_exceptional_partial, te_not_defined_iff) and correctness whenever the law is defined; the correspondence enumerates the subgroups of the toy incomplete curves exhaustively"],
+        "assumptions": ["characteristic != 2 (and the curve equation for the branches that need it) are hypotheses of the theorems", "configs overriding mul_by_a are assumed to compute a*e (checked by the correspondence op mulbya)"],
     },
     "C17": {
-        "modules": ["Ark.Props.C17"],
-        "claimed": False,
+        "modules": ["Ark.Props.C17a", "Ark.Props.C17b", "Ark.Props.C17c"],
         "rule": "one op line per MLE / multivariate-polynomial operation; distinct = distinct op line; non-trivial = some operand outside {0,1}",
         "exhaustive": ["all tables with entries in a small set over F_5 and F_13 for 0..3 variables x all Boolean points, relabel windows and partial assignments"],
         "partial": [],
